@@ -239,6 +239,10 @@ def lean_audit(module, extra_modules=()):
                 res["problems"].append("%s:%d: forbidden construct: %s" % (os.path.relpath(f, VERIF), i, line.strip()[:80]))
     mfile = os.path.join(LEAN, module.replace(".", "/") + ".lean")
     thms = theorems_in(mfile)
+    # a property file may keep its ingredient lemmas in <module>Base.lean (imported by it): audited with it
+    bfile = mfile[:-len(".lean")] + "Base.lean"
+    if os.path.exists(bfile):
+        thms = theorems_in(bfile) + thms
     res["theorems"] = thms
     if not thms:
         res["problems"].append("no theorem found in " + mfile)
@@ -399,6 +403,9 @@ class Tok:
     def nat(self):
         return int(self.next())
 
+    def more(self):
+        return self.i < len(self.t)
+
     def hexs(self):
         v = self.next()
         assert v.startswith("x"), v
@@ -468,6 +475,13 @@ def parse_result(line):
         ev["glob"] = p_store(tk)
         tr.append(ev)
     r["trace"] = tr
+    # the result contract applied by the specification (Spec.finish): the complete error list Parse returns
+    if tk.more() and tk.next() == "final":
+        fk = tk.next()
+        r["final_kind"] = fk
+        if fk in ("ret", "panic"):
+            n = tk.nat()
+            r["final_errs"] = [tk.hexs().decode("utf-8", "replace") for _ in range(n)]
     return r
 
 
@@ -628,6 +642,8 @@ def spec_compare(i, s, fields):
         return None if i["val"] is None else "a panic was contained but a value was returned"
     if i["kind"] != "ret":
         return "a panic escaped where the specification returns normally"
+    if "final" in fields and s.get("final_kind") == "ret" and i["kind"] == "ret" and i["errs"] != s["final_errs"]:
+        return "Parse returns the error list %r, the result contract of the specification (Spec.finish, C11_parse_contract) gives %r" % (i["errs"][:4], s["final_errs"][:4])
     if "match" in fields:
         if s["kind"] == "ok" and nm:
             return "the parse fails (%s) where the specification matches a prefix of %d bytes" % (nm[0][:80], s["off"])
